@@ -61,6 +61,10 @@ def centres(geom, rho=None):
     if geom == "coincident":
         c = tuple(hvec("eri-c", 3, -0.5, 0.5))
         return [c, c, c, c]
+    if geom == "octa":
+        # symmetric layout on dyadic coordinates: several pairs of centres differ by vectors whose components sum to
+        # exactly zero, (0.5, -0.5, 0) and the like
+        return [(0.5, 0.0, 0.0), (0.0, 0.5, 0.0), (0.0, 0.0, -0.5), (-0.5, 0.0, 0.0)]
     if geom == "nearfar":
         # four distinct centres within 1e-3 bohr of each other (ghost functions / displaced geometries), the group
         # about 60 bohr from the coordinate origin: distinct centres that a relative-tolerance test would confuse
@@ -156,12 +160,14 @@ def configs(tier, seed):
         for pos in range(4):
             for perm in range(6):
                 out.append({"kind": "order", "ls": list(ls), "pos": pos, "perm": perm})
-    geoms = ["general"] if tier == "quick" else ["general", "coincident", "collinear", "nearfar"] + ["boys%g" % T for T in BOYS_T]
+    geoms = ["general"] if tier == "quick" else ["general", "coincident", "collinear", "nearfar", "octa"] + ["boys%g" % T for T in BOYS_T]
     for qi, ls in enumerate(itertools.product(range(4), repeat=4)):
         qg = list(geoms)
         if tier == "quick":
             if qi % 4 == 1:
                 qg.append("nearfar")
+            if qi % 4 == 3:
+                qg.append("octa")
             qg.append("boys%g" % BOYS_T[qi % len(BOYS_T)])
             if sum(ls) >= 6 and "boys22" not in qg:
                 qg.append("boys22")  # high Boys orders just above a typical switch-over argument
@@ -170,7 +176,7 @@ def configs(tier, seed):
                 for kp in range(len(km_patterns(sum(ls), tier))):
                     if g.startswith("boys") != (ep in (5, 6)):
                         continue  # patterns 5, 6 (all mid / all hi: large rho, so high Boys orders carry weight) <-> Boys ladder
-                    if g == "nearfar" and tier == "quick" and ep != 0:
+                    if g in ("nearfar", "octa") and tier == "quick" and ep != 0:
                         continue
                     if g.startswith("boys") and (kp != 0 or (tier == "quick" and ep != 5)):
                         continue
